@@ -10,6 +10,7 @@
 """
 from __future__ import annotations
 import ast
+import collections.abc
 import z3
 from .logic import Ctx, simplify_bool
 from . import values as V
@@ -73,6 +74,36 @@ class LoopSpec:
         # exit_lemmas(ex, env) -> [(name, formula)]: consequences of the invariant at loop exit, each PROVED (an obligation)
         # and then used; they keep the obligations after the loop small (no new assumption enters)
         self.exit_lemmas = exit_lemmas
+
+
+class StaleValue:
+    """Placeholder for a name a cut loop re-binds and its invariant says nothing about."""
+    def __init__(self, name, ordinal):
+        self.name, self.ordinal = name, ordinal
+
+
+class _TouchedEnv(collections.abc.MutableMapping):
+    """The environment as a havoc function sees it: records which names it looks at or replaces."""
+    def __init__(self, env):
+        self.env, self.touched = env, set()
+
+    def __getitem__(self, k):
+        self.touched.add(k)
+        return self.env[k]
+
+    def __setitem__(self, k, v):
+        self.touched.add(k)
+        self.env[k] = v
+
+    def __delitem__(self, k):
+        self.touched.add(k)
+        del self.env[k]
+
+    def __iter__(self):
+        return iter(self.env)
+
+    def __len__(self):
+        return len(self.env)
 
 
 def assigned_names(stmts):
@@ -210,6 +241,9 @@ class Executor:
 
     def ev_Name(self, n, env):
         if n.id in env:
+            if isinstance(env[n.id], StaleValue):
+                raise Unsupported(f"{n.id!r} is read before it is assigned again in or after loop {env[n.id].ordinal} and is not "
+                                  f"described by the loop's invariant", n)
             return env[n.id]
         return self.mod.resolve(n.id, n)
 
@@ -510,7 +544,7 @@ class Executor:
     def st_AugAssign(self, s, env):
         opname = type(s.op).__name__
         if isinstance(s.target, ast.Name):
-            cur = env[s.target.id] if s.target.id in env else self.mod.resolve(s.target.id, s)
+            cur = self.ev_Name(s.target, env)
             rhs = self.ev(s.value, env)
             env[s.target.id] = V.augassign(self, opname, cur, rhs, s)
         elif isinstance(s.target, ast.Subscript):
@@ -709,9 +743,19 @@ class Executor:
         self._pose_inv(spec, env, zero, f"{L}.init", s)
         branch = self.choice(2, L)
         k = self.ctx.int("k")
+        rebound = {a for a in assigned & declared if a in env}
+
+        def havoc(k):
+            # a name the body re-binds and the havoc neither replaces nor rewrites in place still holds the value of the
+            # peeled iteration (or the one before the loop): reading it before it is assigned again would be a claim
+            # about no particular iteration, so it becomes unreadable
+            seen = _TouchedEnv(env)
+            spec.havoc(self, seen, k)
+            for a in rebound - seen.touched:
+                env[a] = StaleValue(a, ordinal)
         if branch == 0:
             # 2. preservation: arbitrary iteration k
-            spec.havoc(self, env, k)
+            havoc(k)
             self.assume(k >= spec.peel)
             if seq is not None:
                 self.assume(k < seq.n)
@@ -739,7 +783,7 @@ class Executor:
                 self.oblige(f"{L}.variant.decrease", z3.And(after < before, after >= 0), "variant", s)
             raise PathEnd()
         # 3. after the loop
-        spec.havoc(self, env, k)
+        havoc(k)
         if seq is not None:
             self.assume(k == seq.n)
             self._assume_inv(spec, env, seq.n)
